@@ -1044,6 +1044,9 @@ def update_loop(
 
             # Check if the node is actually active
             if not node.check_init():
+                # Stop auto-import, if running: the node is about to be
+                # forgotten, so nothing else would ever stop its watcher
+                auto_import.update_observer(node, queue, force_stop=True)
                 del nodes[name]  # Not active
                 continue
 
